@@ -140,3 +140,325 @@ def nontrivial_borrow(case, obs):
     # non-trivial: some step saw the unique bit together with a transient reader (cell > 2^63),
     # i.e. the roll-back path ran, or a unique acquisition failed
     return any(int(x) > U for x in obs[: len(obs) // 2 + 1] if x.isdigit())
+
+
+# ----------------------------------------------------------------------------- engine 1: world scripts
+import catalogue as CAT
+
+TUPLES = CAT.tuples()
+TUPLE_SET = set(TUPLES)
+EXS = CAT.exchange_s()
+EXT = CAT.exchange_t()
+NT = 8
+DANGLING = (1 << 64) - 1
+
+
+class WorldGen:
+    """Builds one script.  Tracks, approximately, which table entries are alive and what they hold,
+    so that most operations are valid; a separate share of operations is deliberately invalid."""
+
+    PROFILES = {
+        # weights: spawn spawn_at insert remove exchange despawn take_drop take_into clear
+        #          reserve1 reserveN flush reserve_bundle spawn_batch colbatch colbatch_at
+        "default": [14, 3, 12, 9, 6, 8, 2, 3, 1, 3, 2, 2, 1, 2, 3, 2],
+        "alloc":   [12, 6, 2, 1, 1, 14, 4, 4, 2, 8, 6, 3, 0, 3, 6, 5],
+        "errors":  [8, 2, 12, 14, 10, 10, 4, 4, 1, 2, 1, 1, 1, 1, 1, 1],
+        "reserve": [8, 3, 8, 5, 3, 6, 2, 2, 1, 14, 10, 4, 1, 2, 4, 4],
+        "cache":   [10, 1, 22, 14, 16, 3, 0, 1, 0, 1, 0, 0, 1, 1, 2, 0],
+        "batch":   [6, 2, 4, 3, 2, 8, 1, 1, 1, 3, 2, 1, 3, 10, 14, 10],
+    }
+
+    def __init__(self, rnd, profile="default", err=0.08, ntypes_bias=None):
+        self.r = rnd
+        self.w = self.PROFILES[profile]
+        self.err = err if profile != "errors" else 0.45
+        self.table = []          # dict(world, alive, types:set, reserved)
+        self.serial = 0
+        self.out = []
+        self.nops = 0
+        self.poisoned = [False, False]
+        self.small = rnd.random() < 0.35   # few distinct types => archetype reuse, swap-remove, edge-cache hits
+
+    # -- helpers
+    def val(self):
+        self.serial += 1
+        return self.serial
+
+    def pick_types(self, k=None, static=False):
+        pool = list(range(6)) if static else list(range(NT))
+        if self.small:
+            pool = [t for t in pool if t in (0, 1, 2, 3)]
+        if k is None:
+            k = self.r.choice([0, 1, 1, 2, 2, 2, 3, 3, 4] if not static else [0, 1, 1, 2, 2, 2, 3])
+        k = min(k, len(pool))
+        return self.r.sample(pool, k)
+
+    def static_tuple(self, kmax=3):
+        for _ in range(20):
+            ts = tuple(self.pick_types(self.r.choice([0, 1, 1, 2, 2, 3][:kmax + 3]), static=True))
+            if ts in TUPLE_SET:
+                return ts
+        return (1,)
+
+    def bundle(self, types=None, allow_dup=False):
+        """returns (encoding, types)"""
+        if allow_dup and self.r.random() < 0.5:
+            ts = self.r.choice([(1, 1), (2, 2), (3, 3), (1, 2, 1)])
+            return [0, len(ts)] + [x for t in ts for x in (t, self.val())], list(ts), True
+        if types is None:
+            if self.r.random() < 0.6:
+                types = list(self.static_tuple())
+            else:
+                types = self.pick_types()
+        types = list(types)
+        self.r.shuffle(types)
+        kind = 0 if (tuple(types) in TUPLE_SET and self.r.random() < 0.7) else 2
+        return [kind, len(types)] + [x for t in types for x in (t, self.val())], types, False
+
+    def alive(self, w):
+        return [i for i, e in enumerate(self.table) if e["world"] == w and e["alive"]]
+
+    def href(self, w, want_valid=True):
+        """encoding of a handle reference; second result: table index or None"""
+        r = self.r
+        if want_valid:
+            a = self.alive(w)
+            if a:
+                i = r.choice(a[-6:]) if r.random() < 0.5 else r.choice(a)
+                return [0, i], i
+        k = r.random()
+        if k < 0.35 and self.table:
+            i = r.randrange(len(self.table))          # any table entry: dead, other world, reserved
+            return [0, i], i
+        if k < 0.5:
+            return [1, DANGLING], None
+        if k < 0.6:
+            return [1, r.getrandbits(64)], None
+        if k < 0.65:
+            return [1, r.getrandbits(32)], None            # zero upper half -> not a handle
+        return [1, (r.randrange(1, 4) << 32) | r.randrange(0, 12)], None   # plausible id, small generation
+
+    def add(self, w, alive=True, types=(), reserved=False, n=1):
+        for _ in range(n):
+            self.table.append(dict(world=w, alive=alive, types=set(types), reserved=reserved))
+
+    def materialise(self, w):
+        for e in self.table:
+            if e["world"] == w and e["reserved"]:
+                e["reserved"] = False
+                e["alive"] = True
+
+    def emit(self, *xs):
+        for x in xs:
+            if isinstance(x, (list, tuple)):
+                self.emit(*x)
+            else:
+                self.out.append(x)
+
+    def probe(self, extra=3):
+        hs = []
+        r = self.r
+        for _ in range(extra):
+            w = r.randrange(2)
+            h, _ = self.href(w, want_valid=r.random() < 0.5)
+            hs.append(h)
+        # most recent entries are the most interesting (just spawned, just despawned, just reserved)
+        for i in range(max(0, len(self.table) - 3), len(self.table)):
+            hs.append([0, i])
+        self.emit(20, len(hs), *hs)
+
+    # -- one random operation
+    def step(self):
+        r = self.r
+        w = r.randrange(2) if r.random() < 0.3 else 0
+        if self.poisoned[w]:
+            w = 1 - w
+            if self.poisoned[w]:
+                return
+        op = r.choices(range(16), weights=self.w)[0]
+        bad = r.random() < self.err
+        self.nops += 1
+        if op == 0:
+            enc, ts, dup = self.bundle(allow_dup=bad and r.random() < 0.15)
+            self.emit(1, w, enc)
+            self.materialise(w)
+            if dup:
+                self.poisoned[w] = True
+                self.add(w, alive=False)
+            else:
+                self.add(w, True, ts)
+        elif op == 1:
+            if r.random() < 0.5 and self.table:
+                i = r.randrange(len(self.table)); h = [0, i]
+            else:
+                h = [1, (r.randrange(1, 4) << 32) | r.randrange(0, 14)]; i = None
+            enc, ts, dup = self.bundle()
+            self.emit(2, w, h, enc)
+            self.materialise(w)
+            self.add(w, True, ts)
+        elif op == 2:
+            h, i = self.href(w, not bad)
+            e = self.table[i] if i is not None else None
+            # bias towards overlapping / extending the entity's current types
+            types = None
+            if e is not None and r.random() < 0.5:
+                cur = list(e["types"])
+                types = r.sample(cur, min(len(cur), r.randrange(0, 3))) + self.pick_types(r.randrange(0, 3))
+                types = list(dict.fromkeys(types))
+            enc, ts, dup = self.bundle(types, allow_dup=bad and r.random() < 0.1)
+            self.emit(3, w, h, enc)
+            self.materialise(w)
+            if dup and e is not None and e["alive"] and e["world"] == w:
+                self.poisoned[w] = True
+            elif e is not None and e["alive"] and e["world"] == w:
+                e["types"] |= set(ts)
+        elif op in (3, 4):
+            h, i = self.href(w, not bad)
+            e = self.table[i] if i is not None else None
+            cat = TUPLES if op == 3 else EXS
+            cands = [t for t in cat if len(t) <= 3]
+            if e is not None and not bad and r.random() < 0.8:
+                ok = [t for t in cands if set(t) <= e["types"] and len(set(t)) == len(t)]
+                ts = r.choice(ok) if ok else r.choice(cands)
+            else:
+                ts = r.choice(cands)
+            if op == 3:
+                self.emit(4, w, h, len(ts), list(ts))
+                self.materialise(w)
+                if e is not None and e["alive"] and e["world"] == w:
+                    if len(set(ts)) != len(ts):
+                        self.poisoned[w] = True
+                    elif set(ts) <= e["types"]:
+                        e["types"] -= set(ts)
+            else:
+                if r.random() < 0.6:
+                    tt = r.choice(EXT)
+                    if len(set(tt)) != len(tt) and not bad:
+                        tt = (1,)
+                    enc = [0, len(tt)] + [x for t in tt for x in (t, self.val())]
+                    its = list(tt)
+                else:
+                    its = self.pick_types(r.randrange(0, 3))
+                    enc = [2, len(its)] + [x for t in its for x in (t, self.val())]
+                self.emit(5, w, h, len(ts), list(ts), enc)
+                self.materialise(w)
+                if e is not None and e["alive"] and e["world"] == w:
+                    if len(set(ts)) != len(ts) or (set(ts) <= e["types"] and len(set(its)) != len(its)):
+                        self.poisoned[w] = True
+                    elif set(ts) <= e["types"]:
+                        e["types"] = (e["types"] - set(ts)) | set(its)
+        elif op in (5, 6):
+            h, i = self.href(w, not bad)
+            self.emit(6 if op == 5 else 7, w, h)
+            self.materialise(w)
+            if i is not None and self.table[i]["world"] == w:
+                self.table[i]["alive"] = False
+        elif op == 7:
+            if self.poisoned[1 - w]:
+                return
+            h, i = self.href(w, not bad)
+            self.emit(8, w, h)
+            self.materialise(w); self.materialise(1 - w)
+            if i is not None and self.table[i]["world"] == w and self.table[i]["alive"]:
+                self.table[i]["alive"] = False
+                self.add(1 - w, True, self.table[i]["types"])
+            else:
+                self.add(1 - w, False)
+        elif op == 8:
+            self.emit(9, w)
+            for e in self.table:
+                if e["world"] == w:
+                    e["alive"] = False; e["reserved"] = False
+        elif op == 9:
+            self.emit(10, w)
+            self.add(w, False, (), reserved=True)
+        elif op == 10:
+            n = r.choice([0, 1, 2, 3, 5])
+            self.emit(11, w, n)
+            self.add(w, False, (), reserved=True, n=n)
+        elif op == 11:
+            self.emit(12, w)
+            self.materialise(w)
+        elif op == 12:
+            ts = self.static_tuple()
+            self.emit(13, w, len(ts), list(ts), r.choice([0, 1, 10, 70]))
+            self.materialise(w)
+        elif op == 13:
+            ts = self.static_tuple()
+            n = r.choice([0, 1, 2, 3, 5])
+            self.emit(14, w, len(ts), list(ts), n, [self.val() for _ in range(n * len(ts))])
+            self.materialise(w)
+            self.add(w, True, ts, n=n)
+        elif op in (14, 15):
+            ts = self.pick_types(r.choice([0, 1, 2, 2, 3]))
+            n = r.choice([0, 1, 2, 3, 4, 6])
+            if op == 14:
+                self.emit(15, w, len(ts), ts, n, [self.val() for _ in range(n * len(ts))])
+                self.materialise(w)
+                self.add(w, True, ts, n=n)
+            else:
+                hs = []
+                used = set()
+                for _ in range(n):
+                    for _try in range(10):
+                        if r.random() < 0.4 and self.table:
+                            i = r.randrange(len(self.table)); h = (0, i)
+                        else:
+                            h = (1, (r.randrange(1, 4) << 32) | r.randrange(0, 16))
+                        # the same id twice in one batch is a (cleanly rejected) caller error; keep it rare
+                        key = h if h[0] == 0 else ("id", h[1] & 0xFFFFFFFF)
+                        if key not in used:
+                            used.add(key); break
+                    hs.append(list(h))
+                self.emit(16, w, len(ts), ts, n, hs, [self.val() for _ in range(n * len(ts))])
+                self.materialise(w)
+                self.add(w, True, ts, n=n)
+
+
+def world_case(universe, rnd, profile, nops, probe_every=1):
+    g = WorldGen(rnd, profile)
+    for i in range(nops):
+        g.step()
+        if (i + 1) % probe_every == 0:
+            g.probe()
+    g.probe(extra=6)
+    g.emit(21, 0, 21, 1)
+    return [1] + universe + g.out
+
+
+def gen_world(profiles, quick_n, thorough_n):
+    def gen(tier, seed, universe):
+        rnd = random.Random(seed)
+        n = quick_n if tier == "quick" else thorough_n
+        for i in range(n):
+            prof = profiles[i % len(profiles)]
+            k = rnd.random()
+            if k < 0.5:
+                yield world_case(universe, rnd, prof, rnd.randrange(4, 16), 1)
+            elif k < 0.9:
+                yield world_case(universe, rnd, prof, rnd.randrange(16, 45), 2)
+            else:
+                yield world_case(universe, rnd, prof, rnd.randrange(60, 140), 7)
+    return gen
+
+
+def nontrivial_world(case, obs):
+    # non-trivial: the history has at least 4 operations and reached a state with >= 2 archetypes
+    # holding entities or a swap-remove/free-list reuse; approximated by observation length
+    return len(obs) > 150
+
+
+WORLD_RULE = ("engine world: seeded scripts of 4..140 operations over two worlds and 8 component layouts (ZST, "
+              "over-aligned ZST, 4/8-byte, heap-owning, align-64, 24-byte align-1, 320-byte): spawn (static tuples in "
+              "any field order from a 68-type catalogue, EntityBuilder bundles), spawn_at, insert, remove, exchange, "
+              "despawn, take (dropped / moved to the other world), clear, reserve_entity/entities, flush, reserve::<T>, "
+              "spawn_batch, spawn_column_batch(_at); handles named by table index or forged bit patterns; mostly-valid "
+              "stream plus a share of invalid calls (dead/foreign/forged/reserved handles, missing components, repeated "
+              "types). After every k-th operation both sides dump len, iteration, archetypes with row order, the "
+              "allocator's meta/pending/cursor (cfg(hecs_verif) snapshot) and probe contains/entity/get/view for a set "
+              "of handles in both worlds; drops are logged per operation. Non-trivial = observation longer than 150 "
+              "numbers (several entities/archetypes reached); distinct = distinct scripts")
+WORLD_ASSUME = ["world state after a caught hecs panic (duplicate component types, duplicate ids in a column batch) is only "
+                "checked for the drop ledger, not for C01/C02 consistency",
+                "id-targeted spawns exercised for ids <= 4096 only; entity counts per world stay below ~200",
+                "TypeId order taken from the harness at run time (model is parametric in it)"]
